@@ -2226,7 +2226,13 @@ func (k *Kernel) handleReplayedHeader(
 			// That is fine, as noted in the documentation for the RoundStore.
 		}
 
-		if err := k.rStore.SaveRoundReplayedHeader(ctx, header); err != nil {
+		var owErr tmstore.OverwriteError
+		if err := k.rStore.SaveRoundReplayedHeader(ctx, header); err != nil &&
+			!(errors.As(err, &owErr) && owErr.Field == "hash") {
+			// An overwrite error on the hash means the round store already holds this header,
+			// as a proposed header in another round of this height
+			// (the same block proposed again and committed in a later round).
+			// That is not a failure; any other error is.
 			return tmelink.ReplayedHeaderInternalError{
 				Err: fmt.Errorf(
 					"failed to save replayed header to round store: %w",
